@@ -87,15 +87,18 @@ pub fn gen(out: &mut Out, ex: &mut Exec, seed: u64, thorough: bool) {
         let l0m = format!("{l0} smp={}", rem(&r0)); out.op(&l0m, &r0); all.push(l0m);
         let mut enabled = false; let mut cur_rem = rem(&r0);
         let mut range_stable_since_fire = false; let mut gap: i64 = -1; let mut polls_since_arm: i64 = -1;
+        // a reset (reset_remaining / io_reset) draws from the current range, enabled or not: from then on the range is "unchanged"
+        // for the first-interrupt bound, until the next set_range / set_exact
+        let mut range_stable_since_reset = true;
         let (mut rlo, mut rhi) = (lo_e as i64, hi_e as i64);
         let mut fires = 0;
         for _ in 0..polls {
             let (base, draws): (String, bool) = match rng.below(if id % 3 == 0 { 60 } else { 1000 }) {
                 0 => { enabled = !enabled; polls_since_arm = if enabled { 0 } else { -1 }; gap = -1; (format!("tim en {}", enabled as u8), false) }
-                1 => { gap = -1; polls_since_arm = if enabled { 0 } else { -1 }; ("tim reset".into(), true) }
-                2 => { gap = -1; polls_since_arm = if enabled { 0 } else { -1 }; ("tim ioreset".into(), true) }
-                3 => { let k = 1 + rng.below(20) as u32; rlo = k as i64; rhi = k as i64; gap = -1; range_stable_since_fire = false; polls_since_arm = -1; (format!("tim exact {k}"), false) }
-                4 => { let a = rng.below(10) as u32; let b = a + rng.below(10) as u32; rlo = a as i64; rhi = b as i64; gap = -1; range_stable_since_fire = false; polls_since_arm = -1; (format!("tim range {a} {b} 1"), false) }
+                1 => { gap = -1; polls_since_arm = if enabled { 0 } else { -1 }; range_stable_since_reset = true; ("tim reset".into(), true) }
+                2 => { gap = -1; polls_since_arm = if enabled { 0 } else { -1 }; range_stable_since_reset = true; ("tim ioreset".into(), true) }
+                3 => { let k = 1 + rng.below(20) as u32; rlo = k as i64; rhi = k as i64; gap = -1; range_stable_since_fire = false; range_stable_since_reset = false; polls_since_arm = -1; (format!("tim exact {k}"), false) }
+                4 => { let a = rng.below(10) as u32; let b = a + rng.below(10) as u32; rlo = a as i64; rhi = b as i64; gap = -1; range_stable_since_fire = false; range_stable_since_reset = false; polls_since_arm = -1; (format!("tim range {a} {b} 1"), false) }
                 _ => ("tim poll".into(), enabled && cur_rem == 0),
             };
             let r = ex.line(&base);
@@ -110,9 +113,10 @@ pub fn gen(out: &mut Out, ex: &mut Exec, seed: u64, thorough: bool) {
                         fires += 1;
                         if gap >= 0 && range_stable_since_fire && !(rlo <= gap && gap <= rhi) { out.fail(out.lines, format!("{gap} polls between consecutive interrupts, range [{rlo},{rhi}]"), all.join("\n")); }
                         if gap >= 0 && range_stable_since_fire { out.hist.hit(if rlo == rhi { "gap_exact_checked" } else { "gap_range_checked" }); }
-                        if polls_since_arm >= 0 && polls_since_arm + 1 > rhi + 1 && range_stable_since_fire { out.fail(out.lines, format!("first interrupt after enable/reset at poll {} > max+1 = {}", polls_since_arm + 1, rhi + 1), all.join("\n")); }
+                        if polls_since_arm >= 0 && polls_since_arm + 1 > rhi + 1 && (range_stable_since_fire || range_stable_since_reset) { out.fail(out.lines, format!("first interrupt after enable/reset at poll {} > max+1 = {}", polls_since_arm + 1, rhi + 1), all.join("\n")); }
                         gap = 0; range_stable_since_fire = true; polls_since_arm = -1;
-                    } else { if gap >= 0 { gap += 1; if range_stable_since_fire && gap > rhi { out.fail(out.lines, format!("more than {rhi} polls without an interrupt after the previous one"), all.join("\n")); gap = -1; } } if polls_since_arm >= 0 { polls_since_arm += 1; } }
+                    } else { if gap >= 0 { gap += 1; if range_stable_since_fire && gap > rhi { out.fail(out.lines, format!("more than {rhi} polls without an interrupt after the previous one"), all.join("\n")); gap = -1; } } if polls_since_arm >= 0 { polls_since_arm += 1;
+                        if polls_since_arm > rhi + 1 && (range_stable_since_fire || range_stable_since_reset) { out.fail(out.lines, format!("no interrupt within max+1 = {} polls after enable/reset (range [{rlo},{rhi}])", rhi + 1), all.join("\n")); polls_since_arm = -1; } } }
                 }
             }
         }
